@@ -400,7 +400,7 @@ def parse_case_lines(out):
     return res
 
 
-def emit_cases(seed, n, work, spelling=True, only_class=None):
+def emit_cases(seed, n, work, spelling=True, only_class=None, named_terms=False):
     ok, eg, log = BUILD.ensure("e_grammar", REPO)
     if not ok:
         return None, log
@@ -410,6 +410,8 @@ def emit_cases(seed, n, work, spelling=True, only_class=None):
         env["EMIT_NO_SPELLING"] = "1"
     if only_class is not None:
         env["EMIT_ONLY_CLASS"] = str(only_class)
+    if named_terms:
+        env["EMIT_NAMED_TERMS"] = "1"
     r = subprocess.run([eg, "--prop", "C07", "--mode", "emit", "--seed", str(seed), "--cases", str(n), "--size", "400", "--out", out], stdout=subprocess.PIPE, stderr=subprocess.STDOUT, env=env)
     if not os.path.exists(out):
         return None, r.stdout.decode("utf-8", "replace")[-3000:]
@@ -436,7 +438,7 @@ def run(pid, tier, seed, work, viol_dir, known_ids=()):
     ncases = {"C03": {"quick": 16, "thorough": 160}, "C07": {"quick": 24, "thorough": 240}, "C17": {"quick": 8, "thorough": 60}, "C13": {"quick": 16, "thorough": 160},
               "C01": {"quick": 16, "thorough": 160}, "C02": {"quick": 16, "thorough": 160}, "C05": {"quick": 16, "thorough": 160}, "C09": {"quick": 16, "thorough": 160}}[pid][tier]
     if pid != "C03":
-      cases, log = emit_cases((seed + {"C01": 101, "C02": 202, "C05": 505, "C09": 909}.get(pid, 0)) % 0x7FFFFFFF or 1, ncases, work, spelling=(pid in ("C07", "C01", "C02", "C05", "C09")), only_class=(1 if pid == "C05" else None))
+      cases, log = emit_cases((seed + {"C01": 101, "C02": 202, "C05": 505, "C09": 909}.get(pid, 0)) % 0x7FFFFFFF or 1, ncases, work, spelling=(pid in ("C07", "C01", "C02", "C05", "C09")), only_class=(1 if pid == "C05" else None), named_terms=(pid == "C09"))
     if cases is None:
         print("HARNESS-BUILD-FAILED engine=e_grammar (emit)")
         print(log)
